@@ -145,12 +145,30 @@ Proof.
   rewrite Z2Nat.inj_add by assumption. rewrite IH. reflexivity.
 Qed.
 
+Lemma nonneg_forallb mults : forallb (fun k => 0 <=? k) mults = true <-> Forall (fun k => 0 <= k) mults.
+Proof.
+  rewrite forallb_forall, Forall_forall. split; intros H k Hin; [apply Z.leb_le|apply Z.leb_le]; now apply H.
+Qed.
+
+Lemma nonneg_forallb_false mults : forallb (fun k => 0 <=? k) mults = false <-> exists k, In k mults /\ k < 0.
+Proof.
+  split.
+  - induction mults as [|k ms IH]; cbn [forallb]; [discriminate|].
+    destruct (0 <=? k) eqn:Hk; cbn [andb].
+    + intros H. destruct (IH H) as [k0 [Hin Hneg]]. exists k0. split; [now right|exact Hneg].
+    + intros _. exists k. split; [now left|]. now apply Z.leb_gt.
+  - intros [k [Hin Hneg]]. destruct (forallb (fun k => 0 <=? k) mults) eqn:E; [|reflexivity].
+    apply nonneg_forallb in E. rewrite Forall_forall in E. specialize (E k Hin). lia.
+Qed.
+
 Lemma combine_bitstrings_partition {A} (all : list (list A)) mults groups :
-  Forall (fun k => 0 <= k) mults ->
   combine_bitstrings all mults = Some groups ->
+  Forall (fun k => 0 <= k) mults /\
   exists parts, List.concat parts = all /\ map (@List.length _) parts = map Z.to_nat mults /\ groups = map (@List.concat A) parts.
 Proof.
-  intros Hm H. unfold combine_bitstrings in H. destruct (Z.eqb_spec (Z.of_nat (List.length all)) (zsum mults)) as [E|E]; [|discriminate].
+  intros H. unfold combine_bitstrings in H. destruct (Z.eqb_spec (Z.of_nat (List.length all)) (zsum mults)) as [E|E]; [|discriminate].
+  destruct (forallb (fun k => 0 <=? k) mults) eqn:Hm; [|discriminate]. apply nonneg_forallb in Hm.
+  split; [exact Hm|].
   inversion H; subst groups; clear H. exists (regroup all (map Z.to_nat mults)).
   assert (Hl : List.length all = fold_right Nat.add 0%nat (map Z.to_nat mults)).
   { rewrite <- zsum_to_nat by assumption. rewrite <- E. symmetry. apply Nat2Z.id. }
@@ -160,6 +178,13 @@ Qed.
 Lemma combine_bitstrings_rejects {A} (all : list (list A)) mults :
   Z.of_nat (List.length all) <> zsum mults -> combine_bitstrings all mults = None.
 Proof. intro H. unfold combine_bitstrings. destruct (Z.eqb_spec (Z.of_nat (List.length all)) (zsum mults)); [contradiction|reflexivity]. Qed.
+
+Lemma combine_bitstrings_rejects_negative {A} (all : list (list A)) mults :
+  (exists k, In k mults /\ k < 0) -> combine_bitstrings all mults = None.
+Proof.
+  intro H. apply nonneg_forallb_false in H. unfold combine_bitstrings. rewrite H.
+  now destruct (Z.eqb (Z.of_nat (List.length all)) (zsum mults)).
+Qed.
 
 (* counts: per-key counts and totals add up *)
 Lemma count_of_add k k' c d : count_of k (add_count k' c d) = count_of k d + (if String.eqb k k' then c else 0).
@@ -454,7 +479,10 @@ Proof.
   intros Hns Hm Hres. unfold combine_bitstrings.
   assert (Hlen : List.length res = List.length (snd (fst (expand_sample_sizes cs ns m)))).
   { rewrite <- (map_length (@List.length B) res), Hres, map_length. reflexivity. }
-  rewrite (expand_mults_sum cs ns m Hns Hm), Hlen, Z.eqb_refl. eexists. split; [reflexivity|].
+  rewrite (expand_mults_sum cs ns m Hns Hm), Hlen, Z.eqb_refl.
+  assert (Hnn : forallb (fun k => 0 <=? k) (snd (expand_sample_sizes cs ns m)) = true).
+  { apply nonneg_forallb. eapply Forall_impl; [|apply (expand_mults_pos cs ns m Hns Hm)]. intros k Hk. cbn beta in Hk. lia. }
+  rewrite Hnn. eexists. split; [reflexivity|].
   rewrite map_map.
   rewrite (map_ext _ (fun g => fold_right Nat.add 0%nat (map (@List.length B) g))) by (intro g; apply length_concat).
   rewrite <- (map_map (map (@List.length B)) (fold_right Nat.add 0%nat)).
